@@ -299,6 +299,24 @@ def exec_state(df, st, emb, magc, part, variant=0):
             part.violation(key("C15_OrientationTimesNorm", "orientation*norm", "raises"), f"orientation * norm raises {type(ex).__name__}", wit(exc=repr(ex)))
         part.count()
         part.nontriv(str(m), nv, str(st["v0"]), str(valid), str(hist), "orientation", mname, emb.name)
+        # the same directions with lengths that differ by nine orders of magnitude WITHIN the field (1e6 next to 1e-3): the
+        # orientation of a cell depends on that cell only (seeded change C15-21 made the zero threshold relative to the
+        # largest vector of the field)
+        if not hist and mname == "1/1" and nv > 1 and variant % 2 == 1:
+            try:
+                scales = np.where(np.arange(len(obs)) % 2 == 0, 1e6, 1e-3)
+                mixed = raw_array(st["v0"], n, 1.0) * fldmod.unflatten([[s] * nv for s in scales], n)
+                om = fldmod.flatten(df.Field(mesh, nvdim=nv, value=mixed, valid=mask).orientation.array)
+                for q, r in enumerate(obs):
+                    want = [Fraction(x, r["den"]) for x in r["num"]]
+                    if any((not any(r["num"]) and om[q][c] != 0) or not math.isfinite(om[q][c]) or abs(Fraction(float(om[q][c])) - w) > REL
+                           for c, w in enumerate(want)):
+                        part.violation(key("C15_OrientationUnitOrZero", "orientation", "mixed-magnitudes-in-one-field"),
+                                       "orientation of a cell depends on the lengths of other cells", wit(cell=q, got=om[q].tolist(), want=[float(x) for x in want]))
+                        break
+            except Exception as ex:  # noqa: BLE001
+                part.violation(key("C15_OrientationUnitOrZero", "orientation", "mixed-magnitudes-raises"), f"orientation raises {type(ex).__name__}", wit(exc=repr(ex)))
+            part.count()
 
 
 def _embs(tier, seed):
